@@ -252,7 +252,7 @@ def run(ctx):
 META = {
     "technique": "table agreement: JSON key literals and type-tag literals extracted from resolved json::operator[]/has/get calls of each writer/reader pair; branch-completeness of field assignments; iteration-source facts",
     "level": "Static decision that for each of the seven codec pairs the reader's key set is included in the writer's and every written key is restored, that the six type tags written are exactly those dispatched on "
-             "(unknown tags raise), that every tag branch of dtype_t::fromJson restores the byte size, that build-file metadata keys agree, and that struct/union fields are emitted in declaration order. "
+             "(unknown tags raise), that every tag branch of dtype_t::fromJson restores the byte size and accounts struct / union members the way addField does, that build-file metadata keys agree, and that struct/union fields are emitted in declaration order. "
              "Quantifies over all dtypes because it checks the codec tables, not sampled values.",
     "note": "Does not decide equality of reconstructed values (e.g. that sizes computed from components equal the original for every nesting), nor cast compatibility after the round trip.",
 }
